@@ -91,6 +91,7 @@ struct Target {
 static std::string TRACE;
 // executes ops on the target, comparing with the model after every step; returns violated clause or ""
 static std::string exec_ops(Target &t, Map &m, const std::vector<Op> &ops) {
+  int stale = JWT_VALUE_ERR_NONE;   // what the previous request returned
   for (const Op &o : ops) {
     Map before = m;
     Res want = model_apply(m, o);
@@ -100,6 +101,7 @@ static std::string exec_ops(Target &t, Map &m, const std::vector<Op> &ops) {
     if (o.t == T_DEL) { code = t.del(n); }
     else if (o.t == T_GET) {
       jwt_value_t v = val_get((jwt_value_type_t)o.vt, n);
+      v.error = (jwt_value_error_t)stale;   // a caller that fills the struct by hand and re-uses it: the error field still holds the previous request's code
       code = t.get(&v);
       if ((int)v.error != code) return "return-code-differs-from-value.error";
       if (code == JWT_VALUE_ERR_NONE && want.code == JWT_VALUE_ERR_NONE) {
@@ -119,9 +121,11 @@ static std::string exec_ops(Target &t, Map &m, const std::vector<Op> &ops) {
       case JWT_VALUE_BOOL: v = val_bool(n, BOOLS[o.val % NBOOLS], o.rep); break;
       default: v = val_json(n, JSONS[o.val % NJSONS], o.rep); break;
       }
+      v.error = (jwt_value_error_t)stale;
       code = t.set(&v);
       if ((int)v.error != code) return "return-code-differs-from-value.error";
     }
+    stale = code;
     TRACE += "=" + std::to_string(code) + "; ";
     bool code_ok = code == want.code || (want.code_alt_invalid && code == JWT_VALUE_ERR_INVALID);
     if (!code_ok) return std::string(o.t == T_SET ? "set" : o.t == T_GET ? "get" : "del") + "-code:want" + std::to_string(want.code) + "-got" + std::to_string(code);
